@@ -167,7 +167,7 @@ func genOptInput(t *rapid.T, kind string) string {
 	frags := []string{" ", "  ", "\t", "\n", "a", "ab", "1", "12", "1.5", ".5", "-3", "'x'", "\"y\"", "'a''b'", "'é'", "\"\"", "''", "'un", "😀", " ", "<", "<=", "<>", "=", ",", "+", "-", ".", "{", "}", "x_1"}
 	switch kind {
 	case "generic+sym":
-		frags = append(frags, "...", "..", ". .", "=:~", "=:", "=", "-->", "--", "::=", "::", "≠≠", "≠", "<=>", "<=", "a..", "x=:")
+		frags = append(frags, "...", "..", ". .", "=:~", "=:", "=", "-->", "--", "::=", "::", "≠≠", "≠", "<=>", "<=", "a..", "x=:", "<!--", "<!-", "<!", "=:~=:~", "=:~=:", "=:~=")
 	case "expression+cpp":
 		frags = append(frags, "// c\n", "//", "/", "a /", "/* c */", "/*", "1//2", "x // y")
 	case "generic+ws":
